@@ -38,9 +38,11 @@ MANIFEST = {
 PROPERTY_FILES = ['Properties/C14.v']
 REFUTED_FILES = []
 GENERATED_FILES = ['Gen/Gen_c14.v']
-MODEL_FILES = ['Gen/Gen_c14.v', 'SF/Missing.v', 'SF/MissingCheck.v']
+MODEL_FILES = ['SF/Missing.v', 'SF/MissingSpecCheck.v', 'Gen/Gen_c14.v', 'SF/MissingCheck.v']
 TRANSLATED = ['DTYPE_INEXACT_KINDS', 'DTYPE_NAT_KINDS']
-IMPORTS = 'Require Import SF.Prelude SF.Value SF.Dtype SF.Missing SF.MissingCheck.'
+IMPORTS = 'Require Import SF.Prelude SF.Value SF.Dtype SF.Missing SF.MissingSpecCheck SF.MissingCheck.'
+# the specification side only: nothing here depends on Gen/Gen_c14.v, so S stays evaluable when generate() fails closed
+IMPORTS_SPEC_ONLY = 'Require Import SF.Prelude SF.Value SF.Dtype SF.Missing SF.MissingSpecCheck.'
 RULE = ('kernel strata: util.binary_transition on EVERY Boolean vector of length <= 8 (quick) / 11 (thorough) and per line of every 2-D Boolean array of the listed shapes; '
         'util.slices_from_targets on every Boolean vector of length <= 6 / 9 x direction x limit 0..3, all called directly. '
         'api strata, exhaustive: Series (float / object-None / object-NaN / datetime64[D]) every missing pattern of length <= 5 / 7 x every operation x limit 0..n; '
